@@ -15,7 +15,9 @@ TIERS = {
 RULE = ('case i: seeded constant expressions (depth <= 5) over + - * / % comparisons == != and or not, unary '
         '+ -, and the casts is int/byte/bool, with boundary literals, const locals and const globals as '
         'leaves (optionally some run-time leaves from argv, so that only part of the tree can be evaluated '
-        'in advance); 12% of the cases are `K ?? noisy(v)` programs with a constant left operand. Each program is compiled twice: as written, and as its run-time twin in which every '
+        'in advance); 12% of the cases are `K ?? noisy(v)` programs with a constant left operand, 8% index '
+        'constant strings with constant (also negative / too large) indices; const byte variables are also '
+        'initialised from out-of-range int constants. Each program is compiled twice: as written, and as its run-time twin in which every '
         'literal and const variable is a non-const local holding the same value. Word sizes {2,3,4}. '
         'oracle: both forms must commit the reference history; a compile-time rejection of the constant '
         'form is accepted only if the twin ends in a run-time fault. distinct = hash(source, argv, W); '
@@ -54,6 +56,10 @@ class Gen14:
             self.n += 1
             name = f'k{self.n}'
             lit = self.literal(t)
+            if t == 'byte' and r.random() < 0.4:
+                # implicit narrowing of an int constant at the declaration keeps the low byte
+                lit = r.choice((I(-1), I(256), I(300), I(511), I(-128), I(65535), I(-256),
+                                bin_('+', I(200), I(100)), bin_('*', I(16), I(17)), ('un', '-', I(7))))
             self.consts[name] = (t, lit, r.random() < 0.4)
             return V(name)
         return self.literal(t)
@@ -159,7 +165,10 @@ def fold_model(e, consts, runtime, W, mask_byte_cast):
             return ('c', int(e[1]))
         if k == 'var':
             if e[1] in consts:
-                return go(consts[e[1]][1])
+                x = go(consts[e[1]][1])
+                if consts[e[1]][0] == 'byte' and mask_byte_cast:
+                    return ('c', x[1] & 0xFF)
+                return x
             return ('r', runtime[e[1]][1])
         if k == 'is':
             x = go(e[1])
@@ -230,7 +239,10 @@ def fold_model(e, consts, runtime, W, mask_byte_cast):
         if k == 'bool':
             return int(e[1])
         if k == 'var':
-            return scan(consts[e[1]][1]) if e[1] in consts else None
+            if e[1] not in consts:
+                return None
+            v = scan(consts[e[1]][1])
+            return v & 0xFF if (v is not None and consts[e[1]][0] == 'byte' and mask_byte_cast) else v
         if k == 'is':
             v = scan(e[1])
             if v is None:
@@ -295,9 +307,40 @@ def spec_programs(rnd, W):
     return const_form, twin, [], [], g
 
 
+def strindex_programs(rnd, W):
+    """constant index into a constant string: folding it (or not) must not change what
+    happens, including out_of_bounds for negative and too large indices"""
+    body_c, body_t, decls_t, glob = [], [], [], []
+    for k in range(rnd.randrange(1, 4)):
+        n = rnd.randrange(1, 11)
+        text = ''.join(chr(rnd.randrange(33, 127)) for _ in range(n))
+        kv = rnd.choice((0, n - 1, n, -1, -n, -n - 1, n + 3, rnd.randrange(-n - 2, n + 2)))
+        form = rnd.randrange(3)
+        if form == 0:
+            src_c = ('str', text)
+        else:
+            src_c = V(f'sc{k}')
+            d = decl('string', f'sc{k}', ('str', text), True)
+            (glob if form == 1 else body_c).append(d)
+        idx_c = I(kv) if rnd.random() < 0.6 else V(f'ic{k}')
+        if idx_c[0] == 'var':
+            body_c.append(decl('int', f'ic{k}', I(kv), True))
+        decls_t += [decl('string', f'st{k}', ('str', text)), decl('int', f'it{k}', I(kv))]
+        body_c += [write(C('<')), write(idx(src_c, idx_c)), write(is_(idx(src_c, idx_c), 'int')), write(C('>'))]
+        body_t += [write(C('<')), write(idx(V(f'st{k}'), V(f'it{k}'))), write(is_(idx(V(f'st{k}'), V(f'it{k}')), 'int')), write(C('>'))]
+    const_form = prog(glob, [func('empty', '@is_you', [], *body_c)])
+    twin = prog([], [func('empty', '@is_you', [], *(decls_t + body_t))])
+    g = Gen14(rnd, W, 0.0)
+    g.ifs = []
+    return const_form, twin, [], [], g
+
+
 def make_programs(rnd, W):
-    if rnd.random() < 0.12:
+    c0 = rnd.random()
+    if c0 < 0.12:
         return spec_programs(rnd, W)
+    if c0 < 0.2:
+        return strindex_programs(rnd, W)
     g = Gen14(rnd, W, p_runtime=rnd.choice((0.0, 0.0, 0.25)))
     exprs = []
     for _ in range(rnd.randrange(1, 5)):
@@ -483,7 +526,7 @@ def case(seed, idx, tier):
     foldable = sum(count_foldable(e, g) for _, e in exprs)
     res['nontrivial'] = bool((foldable or not exprs) and info.get('cr') is not None and info.get('tr') is not None)
     if not exprs:
-        res['counters']['spec_programs'] = 1
+        res['counters']['spec_or_strindex_programs'] = 1
     res['counters'].update(foldable_operators=foldable, expressions=len(exprs),
                            runtime_leaves=len(g.runtime), const_vars=len(g.consts))
     res['counters'][f'word_size_{W}'] = 1
